@@ -114,13 +114,13 @@ func (p *Program) verifyFunc(name string, view string) *FuncResult {
 			if !e.inView(en) || (en.View == "" && !e.primary()) {
 				continue
 			}
-			for ri, r := range f.rets {
+			for _, r := range f.rets {
 				e.curBlock = r.block
 				env := &specEnv{f: f, st: r.state, old: f.entry, results: r.results}
 				t := f.specBool(en.Expr, env)
 				name := fmt.Sprintf("%s:ensures:%s", name, clauseName(en))
 				if len(f.rets) > 1 {
-					name += fmt.Sprintf("@ret%d", ri+1)
+					name += fmt.Sprintf("@b%d", r.block)
 				}
 				e.oblige("ensures", name, f.clauseProps(en), r.guard, t, p.pos(fn.Pos()), en.Text)
 			}
